@@ -416,7 +416,12 @@ int lzxd_decompress(struct lzxd_stream *lzx, off_t out_bytes) {
   R1 = lzx->R1;
   R2 = lzx->R2;
 
-  end_frame = (unsigned int)((lzx->offset + out_bytes) / LZX_FRAME_SIZE) + 1;
+  /* the last frame needed is the one holding the final byte asked for; a
+   * request ending exactly on a frame boundary does not need the next frame
+   * (decoding it ahead of time reads past the end of a stream that stops
+   * there, turning a complete extraction into MSPACK_ERR_READ) */
+  end_frame = (unsigned int)((lzx->offset + out_bytes + LZX_FRAME_SIZE - 1)
+                             / LZX_FRAME_SIZE);
 
   while (lzx->frame < end_frame) {
     /* have we reached the reset interval? (if there is one?) */
